@@ -11,6 +11,8 @@ mod c11;
 mod c12;
 mod c13;
 mod c14;
+mod c10;
+pub mod modgen;
 mod c16;
 mod c19;
 mod probes;
@@ -30,13 +32,15 @@ pub struct Args {
 
 fn main() {
     let argv: Vec<String> = std::env::args().collect();
-    if argv.len() < 3 {
+    if argv.len() < 3 && !(argv.len() == 2 && (argv[1] == "dump-stdlib" || argv[1] == "c10-witness")) {
         eprintln!("usage: harness gen <Cxx> --seed S --n N --tier quick|thorough --out DIR");
         std::process::exit(2);
     }
     let cmd = argv[1].clone();
+    if cmd == "c10-witness" { out::start_watchdog(); c10::witness(); return; }
+    if cmd == "dump-stdlib" { print!("{}", modgen::dump_stdlib()); return; }
     if cmd == "gcprobe" { gcprobe::run(&argv[2]); return; }
-    if cmd == "probe" { if argv[2] == "handles" { probes::handles(); } else if argv[2] == "c02-guard-children" { probes::guard_children(); } else { probes::run(&argv[2]); } return; }
+    if cmd == "probe" { if argv[2] == "handles" { probes::handles(); } else if argv[2] == "c02-guard-children" { probes::guard_children(); } else if argv[2] == "closure-labels" { probes::closure_labels(); } else { probes::run(&argv[2]); } return; }
     let mut a = Args { prop: argv[2].clone(), seed: 1, n: 300, tier: "quick".into(), out: PathBuf::from("work") };
     let mut i = 3;
     while i < argv.len() {
@@ -58,6 +62,7 @@ fn main() {
         ("gen", "C12") => c12::gen(&a),
         ("gen", "C13") => c13::gen(&a),
         ("gen", "C14") => c14::gen(&a),
+        ("gen", "C10") => c10::gen(&a),
         ("gen", "C16") => c16::gen(&a),
         ("gen", "C19") => c19::gen(&a),
         ("gen", "VM") | ("gen", "C03") => vmrun::gen(&a),
